@@ -343,8 +343,13 @@ def find_irrelevant_type(etype: tp.Type, types: List[tp.Type],
         # type arguments in order to pass type arguments that are irrelevant
         # with any parameterized type created by this type constructor.
         type_list = [t for t in types if t != etype]
-        return get_irrelevant_parameterized_type(
+        t = get_irrelevant_parameterized_type(
                 t, type_list, type_args_map, factory)
+        if t is not None and not t.not_related(etype):
+            # The instantiation of a generic subclass / superclass of `etype`
+            # may be related to it (e.g., B<String> for class B<T> : A<T>
+            # and etype A<String>).
+            return None
     return t
 
 
